@@ -16,8 +16,8 @@ theorem SameP.trans {a b c : Cfg} (h1 : SameP a b) (h2 : SameP b c) : SameP a c 
 theorem InvP.same {c c' : Cfg} (h : InvP c) (s : SameP c c') : InvP c' :=
   ⟨by rw [s.2.1]; exact h.traceOk, by rw [s.1, s.2.2.1, s.2.2.2]; exact h.pausedPending⟩
 
-theorem invP_init (name : String) : InvP (init name) := by
-  unfold init; split <;> exact ⟨by simp, by simp⟩
+theorem invP_init (nf : Nat) : InvP (init nf) := by
+  exact ⟨by simp [init], by simp [init]⟩
 
 /-! frame lemmas -/
 theorem setActionStatus_sameP (c : Cfg) (i s) : SameP c (setActionStatus c i s) := by
@@ -412,6 +412,11 @@ theorem awaitableDone_invP (c : Cfg) (f) (h : InvP c) : InvP (awaitableDone c f)
       · exact h1
   · exact hold c h
 
+theorem fail_invP (c : Cfg) (e : Exc) (h : InvP c) : InvP (fail c e).1 := by
+  unfold fail; split
+  · exact h
+  · exact transitionTo_invP c _ h
+
 theorem step_invP (P : Prog) (c : Cfg) (ev : Ev) (h : InvP c) : InvP (step P c ev).1 := by
   cases ev <;> simp only [step]
   · exact tickStepper_invP P c h
@@ -420,6 +425,9 @@ theorem step_invP (P : Prog) (c : Cfg) (ev : Ev) (h : InvP c) : InvP (step P c e
       split
       · exact awaitableDone_invP _ _ h1
       · exact (kill_invP _ h1).same ⟨rfl, rfl, rfl, rfl⟩
+      · split
+        · exact fail_invP _ _ h1
+        · exact h1
     · exact h
   · exact pause_invP c h
   · exact play_invP c h
@@ -436,18 +444,18 @@ theorem step_invP (P : Prog) (c : Cfg) (ev : Ev) (h : InvP c) : InvP (step P c e
   · unfold complete; split
     · dsimp only; split <;> exact h.same ⟨rfl, rfl, rfl, rfl⟩
     · exact h
+  · exact h.same ⟨rfl, rfl, rfl, rfl⟩
 
 /-- **C05 (model level), core clause**: for every user program and every history of ticks, scheduled callbacks
 and pause / play / kill / resume / fail / cancel / complete requests, no step function or continuation is ever
 started while the process reports paused. -/
-theorem C05_no_user_code_while_paused (P : Prog) (name : String) (evs : List Ev) :
-    ∀ a ∈ (run P (init name) evs).trace, a.paused = false := by
+theorem C05_no_user_code_while_paused (P : Prog) (nf : Nat) (evs : List Ev) :
+    ∀ a ∈ (run P (init nf) evs).trace, a.paused = false := by
   have : ∀ (c0 : Cfg), InvP c0 → InvP (run P c0 evs) := by
     induction evs with
     | nil => intro c0 h; exact h
     | cons e es ih => intro c0 h; exact ih _ (step_invP P c0 e h)
-  exact (this _ (invP_init name)).traceOk
+  exact (this _ (invP_init nf)).traceOk
 
 end PMF
 
-#print axioms PMF.C05_no_user_code_while_paused
